@@ -236,7 +236,7 @@ PROPERTY = dict(
     bounds=dict(coverage='2-3 reads of length 1..3 (third: 1; the second read optionally spliced 1M2N..; the first read optionally with a one-base insertion or deletion after its first base) with overlap / adjacency / gaps 0..4 between them, start 0..3', max_N_span='None, 0..4', mismatch='optional mismatch in the first read',
                 call='two bases with 0..3 observations each at 3 confidence levels'),
     outside=['optimality of the likelihood call over all real-valued qualities (floating point)', 'reverse-strand flag and allele tags of the pseudo-read', 'the --consensus command line (replay only)',
-             'indels longer than one base or in more than one source read'],
+             'indels longer than one base or in more than one source read', 'strict SAM form of the MD tag (zeros between adjacent mismatches)', 'positions covered by a single base with P(correct) < 0.5', 'more than ~600 observations per position (float underflow)'],
     assumptions=['the reference contains soft-masked (lower-case) stretches; reads are upper case; MD letters must be upper case and mark true mismatches only', 'pysam.AlignedSegment inside molecule.py replaced by a FakeRead factory (the replay uses real pysam)', 'FakeFasta reference'],
     trusted=['stubs/fakeread.py', 'stubs/fakefasta.py', 'spec/c15.py'],
 )
